@@ -172,6 +172,26 @@ def handle (args impl : List String) : String :=
         ":h" ++ toString (cnt (fun e => e.res == .begun))
       reply (" ".intercalate out) spec tag
     | _, _, _ => bad
+  | "overlap" :: life :: n :: variant :: evs =>
+    -- real overlap of instance B's renewal with instance A's pass; the model runs the
+    -- corresponding atomic history and predicts A's issuer calls and the adoption
+    match life.toInt?, n.toNat?, evs.mapM parseEv with
+    | some life, some n, some evs =>
+      let final := run dueC04 (init life) evs
+      let own := (final.log.filter (fun e => e.inst == 0)).length - n
+      let adopted := (List.range n).all (fun k => match served final.now final.cache k, final.store k with
+        | some i, .ok c => i == c.id
+        | _, _ => false)
+      let spec := match impl with
+        | [o, a] =>
+          if variant = "b-first" && o ≠ "0" then "bad:issuer-contacted-although-renewed-by-other-instance"
+          else if variant ≠ "b-first" && o.toNat? ≠ some n then "bad:not-renewed-once"
+          else if a ≠ "1" then "bad:renewed-certificate-not-served"
+          else "ok"
+        | [] => "-"
+        | _ => "bad:malformed-observation"
+      reply (toString own ++ " " ++ (if adopted then "1" else "0")) spec ("overlap:" ++ variant ++ ":n" ++ toString n)
+    | _, _, _ => bad
   | _ => bad
 
 end CM.Drv.C05
